@@ -4,22 +4,66 @@ From Helm Require Import Values.Tree Values.Merge Values.Coalesce Values.Reuse V
 Import ListNotations.
 Local Open Scope string_scope.
 
-(* The Config recorded for an upgrade: the new values alone with reset-values; the deployed
-   revision's values under the new ones (CoalesceTables) with reuse-values or
-   reset-then-reuse-values; otherwise the new values if any were given, else the deployed
-   revision's. *)
-Theorem C13_config_spec : forall (h : history) (f : uflags) (c : chart) (vals : vmap) (r : revision),
-  step h (OUpgrade f c vals) = Some r ->
-  exists cur, current h = Some cur
-  /\ rconfig r =
-     (if reset_values f then vals
-      else if reuse_values f || reset_then_reuse_values f then coalesce_tables false vals (rconfig cur)
-      else if is_empty vals then rconfig cur else vals).
-Proof. exact upgrade_config_spec. Qed.
+(* Which revision an upgrade carries values forward from (prepareUpgrade's currentRelease,
+   [current_idx] over the statuses of the stored revisions): the newest revision with status
+   DEPLOYED when there is one — whatever came after it (failed upgrades, failed rollbacks) —
+   and only when no revision is deployed the newest revision. *)
+Theorem C13_current_is_deployed : forall (sts : list rstat) (n : nat),
+  current_idx sts = Some n ->
+  1 <= n <= List.length sts
+  /\ ((nth_error sts (n - 1) = Some SDeployed
+       /\ forall j, n <= j -> j < List.length sts -> nth_error sts j <> Some SDeployed)
+      \/ (n = List.length sts /\ forall j, nth_error sts j <> Some SDeployed)).
+Proof. exact current_idx_spec. Qed.
+Print Assumptions C13_current_is_deployed.
+
+(* What an upgrade that gets as far as creating its record stores (whether it then succeeds or
+   fails): relative to that current revision [cur], the Config is the new values alone with
+   reset-values; CoalesceTables(new, cur.Config) with reuse-values or reset-then-reuse-values;
+   otherwise the new values if any were given, else cur.Config.  The chart defaults used for
+   rendering are, with reuse-values (and not reset-values), the coalesced values of [cur]
+   (its stored chart under its stored Config), otherwise the new chart's; the stored chart
+   carries those defaults and the values the templates saw are these defaults under the
+   recorded Config.  On success [cur] becomes superseded and the new revision deployed; on
+   failure the new revision is stored as failed and nothing else changes. *)
+Theorem C13_config_spec :
+  forall (h : history) (f : uflags) (c : chart) (vals : vmap) (fails : bool) (h' : history) (ok : bool),
+  step h (OUpgrade f c vals fails) = Some (h', ok) ->
+  exists n cur d r,
+    current h = Some (n, cur)
+    /\ (if negb (reset_values f) && reuse_values f
+        then coalesce_values_root (rchart cur) (rconfig cur)
+        else Some (cvalues c)) = Some d
+    /\ h' = ((if fails then h else supersede_at n h) ++ [r])%list
+    /\ rconfig r =
+       (if reset_values f then vals
+        else if reuse_values f || reset_then_reuse_values f then coalesce_tables false vals (rconfig cur)
+        else if is_empty vals then rconfig cur else vals)
+    /\ rchart r = set_values c d
+    /\ to_render_values (set_values c d) (rconfig r) = Some (rrendered r)
+    /\ rstatus r = (if fails then SFailed else SDeployed)
+    /\ ok = negb fails.
+Proof. exact upgrade_stores. Qed.
 Print Assumptions C13_config_spec.
 
-(* ... and what that overlay means path by path: a (non-null) value given now wins, a path the
-   new values say nothing about keeps what the deployed revision recorded *)
+(* the same statement under its second name in DESIGN.md (defaults used for rendering) *)
+Theorem C13_defaults_spec :
+  forall (h : history) (f : uflags) (c : chart) (vals : vmap) (fails : bool) (h' : history) (ok : bool),
+  step h (OUpgrade f c vals fails) = Some (h', ok) ->
+  exists n cur d r,
+    current h = Some (n, cur)
+    /\ defaults_spec f c cur = Some d
+    /\ h' = ((if fails then h else supersede_at n h) ++ [r])%list
+    /\ rconfig r = config_spec f vals (rconfig cur)
+    /\ rchart r = set_values c d
+    /\ to_render_values (set_values c d) (rconfig r) = Some (rrendered r)
+    /\ rstatus r = fail_status fails
+    /\ ok = negb fails.
+Proof. exact upgrade_stores. Qed.
+Print Assumptions C13_defaults_spec.
+
+(* ... and what the overlay means path by path: a (non-null) value given now wins, a path the
+   new values say nothing about keeps what the current revision recorded *)
 Theorem C13_config_overlay : forall (f : uflags) (newv deployed : vmap),
   reset_values f = false -> reuse_values f || reset_then_reuse_values f = true ->
   wf (VMap deployed) ->
@@ -36,48 +80,39 @@ Theorem C13_config_overlay : forall (f : uflags) (newv deployed : vmap),
 Proof. exact overlay_paths. Qed.
 Print Assumptions C13_config_overlay.
 
-(* The chart defaults used for rendering an upgrade: with reuse-values (and not reset-values)
-   the coalesced values of the deployed revision (its stored chart under its stored Config);
-   otherwise the new chart's.  The stored chart carries those defaults, and the values the
-   templates saw are these defaults under the recorded Config. *)
-Theorem C13_defaults_spec : forall (h : history) (f : uflags) (c : chart) (vals : vmap) (r : revision),
-  step h (OUpgrade f c vals) = Some r ->
-  exists cur d, current h = Some cur
-  /\ (if negb (reset_values f) && reuse_values f
-      then coalesce_values_root (rchart cur) (rconfig cur)
-      else Some (cvalues c)) = Some d
-  /\ rchart r = set_values c d
-  /\ to_render_values (set_values c d) (rconfig r) = Some (rrendered r).
-Proof. exact upgrade_defaults_spec. Qed.
-Print Assumptions C13_defaults_spec.
-
 (* in a history whose revisions re-render to what their templates saw (true of every history
-   the operations build, C13_chain), "the coalesced values of the deployed revision" are the
-   values the deployed revision's templates saw: its defaults stay in force *)
-Theorem C13_defaults_stay_in_force : forall (h : history) (f : uflags) (c : chart) (vals : vmap) (r : revision),
+   the operations build, C13_chain_consistent), "the coalesced values of the current revision"
+   are the values its templates saw: its defaults stay in force *)
+Theorem C13_defaults_stay_in_force :
+  forall (h : history) (f : uflags) (c : chart) (vals : vmap) (fails : bool) (h' : history) (ok : bool),
   Forall consistent h ->
-  step h (OUpgrade f c vals) = Some r ->
+  step h (OUpgrade f c vals fails) = Some (h', ok) ->
   negb (reset_values f) && reuse_values f = true ->
-  exists cur, current h = Some cur /\ rchart r = set_values c (rrendered cur).
+  exists n cur r, current h = Some (n, cur) /\ last_rev h' = Some r /\ rchart r = set_values c (rrendered cur).
 Proof. exact reuse_defaults_are_deployed_values. Qed.
 Print Assumptions C13_defaults_stay_in_force.
 
-(* A rollback's record has the target's Config, chart and rendered values unchanged. *)
-Theorem C13_rollback_config : forall (h : history) (v : nat) (r : revision),
-  step h (ORollback v) = Some r ->
-  exists t, get_rev h (match v with O => List.length h - 1 | _ => v end) = Some t
-            /\ rconfig r = rconfig t /\ rchart r = rchart t /\ rrendered r = rrendered t.
-Proof. exact rollback_spec. Qed.
+(* A rollback's record has the target's Config, chart and rendered values unchanged; on
+   success every deployed revision becomes superseded and the new one deployed, on failure it
+   is stored as failed. *)
+Theorem C13_rollback_config : forall (h : history) (v : nat) (fails : bool) (h' : history) (ok : bool),
+  step h (ORollback v fails) = Some (h', ok) ->
+  exists t r, get_rev h (match v with O => List.length h - 1 | _ => v end) = Some t
+    /\ h' = ((if fails then h else supersede_deployed h) ++ [r])%list
+    /\ rconfig r = rconfig t /\ rchart r = rchart t /\ rrendered r = rrendered t
+    /\ rstatus r = (if fails then SFailed else SDeployed) /\ ok = negb fails.
+Proof. exact rollback_stores. Qed.
 Print Assumptions C13_rollback_config.
 
-(* Any chain of installs, upgrades and rollbacks from any history: the recorded Configs
-   afterwards are the fold of the per-step specification over the recorded Configs alone
-   (spec_chain/spec_step: install records its values, upgrade records config_spec of the
-   last revision's, rollback records the target's; failed operations record nothing), and
-   every revision of a history that started consistent re-renders to what its templates saw. *)
+(* Any chain of installs, upgrades and rollbacks — succeeding, failing after their record was
+   created, or rejected before — from any history: the ledger afterwards (recorded Config and
+   status of every revision) is the fold of the per-step specification over the ledger alone
+   (spec_chain/spec_step: install records its values; upgrade records config_spec of the
+   revision current_idx picks from the statuses; rollback records the target's; a failing
+   step stores a failed revision and changes no status; a rejected one stores nothing). *)
 Theorem C13_chain : forall (ops : list op) (h h' : history) (oks : list bool),
   run_chain h ops = (h', oks) ->
-  map rconfig h' = spec_chain (map rconfig h) ops oks
+  ledger_of h' = spec_chain (ledger_of h) ops (stored_flags h ops)
   /\ List.length oks = List.length ops.
 Proof. exact chain_spec. Qed.
 Print Assumptions C13_chain.
@@ -87,16 +122,18 @@ Theorem C13_chain_consistent : forall (ops : list op) (h h' : history) (oks : li
 Proof. exact chain_consistent. Qed.
 Print Assumptions C13_chain_consistent.
 
+(* install; a FAILED upgrade with other values; reuse-values: carried forward from revision 1 *)
 Example C13_chain_nonvacuous :
   let '(h, oks) := run_chain [] ex_ops in
-  oks = [true; true; true; true; false; true]
-  /\ map rconfig h =
-     [ [("a", VNum 10%Z); ("u", VStr "keep")];
-       [("t", VMap [("y", VStr "u2")]); ("a", VNum 10%Z)];
-       [("t", VMap [("y", VStr "u2")]); ("a", VNum 10%Z)];
-       [("a", VNum 10%Z); ("u", VStr "keep")];
-       [] ]
-  /\ option_map rrendered (get_rev h 2)
+  oks = [true; false; true; true; true; false; true]
+  /\ ledger_of h =
+     [ ([("a", VNum 10%Z); ("u", VStr "keep")], SSuperseded);
+       ([("a", VNum 99%Z); ("bad", VStr "x")], SFailed);
+       ([("t", VMap [("y", VStr "u2")]); ("a", VNum 10%Z)], SSuperseded);
+       ([("t", VMap [("y", VStr "u2")]); ("a", VNum 10%Z)], SSuperseded);
+       ([("a", VNum 10%Z); ("u", VStr "keep")], SSuperseded);
+       ([], SDeployed) ]
+  /\ option_map rrendered (get_rev h 3)
      = Some [("t", VMap [("y", VStr "u2"); ("x", VStr "d")]); ("a", VNum 10%Z); ("u", VStr "keep")].
 Proof. exact ex_chain. Qed.
 Print Assumptions C13_chain_nonvacuous.
@@ -115,6 +152,6 @@ Print Assumptions C13_config_overlay_nonvacuous.
 
 Example C13_consistent_nonvacuous :
   Forall consistent (fst (run_chain [] ex_ops))
-  /\ List.length (fst (run_chain [] ex_ops)) = 5.
+  /\ List.length (fst (run_chain [] ex_ops)) = 6.
 Proof. exact ex_consistent. Qed.
 Print Assumptions C13_consistent_nonvacuous.
